@@ -100,6 +100,9 @@ def sp_val(ex, e, st):
 
 def sp_dval(ex, e, st):
     s = _seq(ex.ev(e.args[0], st))
+    txt = getattr(s, "const", None)
+    if txt is not None and txt.isdigit():
+        return iv(int(txt))
     return specz3.seq_pv(s, iv(0), s.n, iv(10))
 
 
@@ -197,8 +200,74 @@ def sp_upd(ex, e, st):
     return a.store(j, v)
 
 
+def sp_pv(ex, e, st):
+    """raw prefix value pv(a, d, lo, hi, b) over an array value (lemma language)."""
+    a = ex.ev(e.args[0], st)
+    d, lo, hi, b = [_int(ex.ev(x, st)) for x in e.args[1:5]]
+    return specz3.pv(a, d, lo, hi, b)
+
+
+def sp_store(ex, e, st):
+    a = ex.ev(e.args[0], st)
+    return z3.Store(a, _int(ex.ev(e.args[1], st)), _int(ex.ev(e.args[2], st)))
+
+
+def sp_A(ex, e, st):
+    return _seq(ex.ev(e.args[0], st)).arr
+
+
+def sp_D(ex, e, st):
+    s = _seq(ex.ev(e.args[0], st))
+    return iv(s.delta - (48 if s.elem == "char" else 0))
+
+
+def sp_P(ex, e, st):
+    s = _seq(ex.ev(e.args[0], st))
+    return add(s.start, _int(ex.ev(e.args[1], st)))
+
+
+def _use_codes(ex):
+    if not getattr(ex, "_codes_on", False):
+        ex._codes_on = True
+        ex.axioms += specz3.codes_axioms()
+
+
+def codes_seq(ex, s):
+    """the sequence of nucleotide codes of a string view (same window on codes_of(array))."""
+    if s.delta != 0 or s.elem != "char":
+        from pyvc.engine import Unsupported
+        raise Unsupported("nucleotide codes of a shifted view")
+    _use_codes(ex)
+    return Seq("list", "int", specz3.codes_of(s.arr), s.n, s.start, 0)
+
+
+def sp_code(ex, e, st):
+    c = ex.ev(e.args[0], st)
+    c = c.at(0) if isinstance(c, Seq) else _int(c)
+    return specz3.code_of(c)
+
+
+def sp_dnav(ex, e, st):
+    """dnav(s, lo, hi): base-4 value of the nucleotides s[lo:hi] (A<C<G<T)."""
+    s = codes_seq(ex, _seq(ex.ev(e.args[0], st)))
+    lo = _int(ex.ev(e.args[1], st)) if len(e.args) > 1 else iv(0)
+    hi = _int(ex.ev(e.args[2], st)) if len(e.args) > 2 else s.n
+    return specz3.seq_pv(s, lo, hi, 4)
+
+
+def sp_codes(ex, e, st):
+    return codes_seq(ex, _seq(ex.ev(e.args[0], st)))
+
+
+def sp_is_dna(ex, e, st):
+    s = _seq(ex.ev(e.args[0], st))
+    lo = _int(ex.ev(e.args[1], st)) if len(e.args) > 1 else None
+    hi = _int(ex.ev(e.args[2], st)) if len(e.args) > 2 else None
+    return s.forall(lambda v: z3.Or(v == 65, v == 67, v == 71, v == 84), lo, hi)
+
+
 SPEC = {
     "forall": sp_forall, "exists": lambda ex, e, st: sp_forall(ex, e, st, exists=True), "implies": sp_implies, "old": sp_old,
     "digits": sp_digits, "val": sp_val, "dval": sp_dval, "val2": sp_val2, "canon": sp_canon, "ipow": sp_ipow, "dig": sp_dig,
-    "same": sp_same_seq, "upd": sp_upd, "seq_is": sp_seq_is, "seq_is_cons": sp_seq_is_cons, "ite": sp_ite, "isnone": sp_isnone, "cnt": sp_cnt, "ssum": sp_ssum,
+    "same": sp_same_seq, "upd": sp_upd, "code": sp_code, "dnav": sp_dnav, "codes": sp_codes, "is_dna": sp_is_dna, "pv": sp_pv, "store": sp_store, "A": sp_A, "D": sp_D, "P": sp_P, "seq_is": sp_seq_is, "seq_is_cons": sp_seq_is_cons, "ite": sp_ite, "isnone": sp_isnone, "cnt": sp_cnt, "ssum": sp_ssum,
 }
